@@ -1,6 +1,7 @@
 //! impldrv: runs the implementation (/repo, hooks on) on case lines read from stdin and prints one
 //! canonical line per case; the extracted Coq model (`modeldrv`) implements the same protocol.
 mod codes;
+mod header;
 mod text;
 
 use std::io::{BufRead, Write};
@@ -14,6 +15,10 @@ fn run_line(line: &str) -> String {
     match toks[0] {
         "CODE" => codes::run_code(args),
         "MATCH" => codes::run_match(args),
+        "HDR" => header::run_hdr(args),
+        "PEEK" => header::run_peek(args),
+        "FLAGS" => header::run_flags(args),
+        "BUILDHDR" => header::run_buildhdr(args),
         _ => "BADCASE".into(),
     }
 }
